@@ -57,7 +57,11 @@ def build(rng, case, k):
     if k % 3 == 0:
         ds['raw'] = rng.randint(-50, 50, size=(int(ds['samples'][-1]) + 4, nc + k % 2))
         ds['chmap'] = rng.permutation(ds['raw'].shape[1])[:nc]
-    ds['attrs'] = {'foo': rng.randint(0, 9, size=ns), 'bar': rng.randint(0, 9, size=ns + 1)}
+        if k % 12 == 3:
+            ds['chmap'] = np.arange(nc)   # the identity map over a raw file with one more channel: the last column is dropped
+    # per-spike attributes: matching length (1-D, (n, 2) positions, 4-D), and one of another length (ignored)
+    ds['attrs'] = {'foo': rng.randint(0, 9, size=ns), 'bar': rng.randint(0, 9, size=ns + 1),
+                   'positions': rng.randint(0, 9, size=(ns, 2)), 'deep': rng.randint(0, 9, size=(ns, 3, 1, 2))}
     return ds
 
 
@@ -99,7 +103,7 @@ def check_case(ctx, d, rng, case, k):
             alt = arr + 1
         np.save(dd / other[b], alt)
     files = sorted(x.name for x in dd.iterdir())
-    expected_files = sorted(set(case['files']) | {'params.py', 'spike_foo.npy', 'spike_bar.npy'} |
+    expected_files = sorted(set(case['files']) | {'params.py', 'spike_foo.npy', 'spike_bar.npy', 'spike_positions.npy', 'spike_deep.npy'} |
                             ({'raw.dat'} if ds.get('raw') is not None else set()))
     if files != expected_files:
         raise MachineryError('materialised files %r, configuration says %r' % (files, expected_files))
@@ -160,7 +164,8 @@ def check_case(ctx, d, rng, case, k):
                 problems.append('%s is not %s (%r)' % (a, e.get('name', e.get('what')), as_list(got[a]) if got[a] is not None else None))
         # extra per-spike attribute arrays of matching length
         sa = m.spike_attributes
-        if 'foo' not in sa or not same(sa['foo'], ds['attrs']['foo']) or 'bar' in sa:
+        if ('bar' in sa or any(a not in sa or not same(sa[a], np.asarray(ds['attrs'][a]).squeeze())
+                               for a in ('foo', 'positions', 'deep'))):
             problems.append('spike attributes %r' % sorted(sa))
         # raw traces: columns permuted by the channel map
         if ds.get('raw') is not None:
